@@ -915,11 +915,15 @@ def r_discinfo_lines(model, rep, rule_id="R-DISCINFO-POS"):
     ok = bool(rets) and not pcx.ex.falls_through
     for r in rets:
         good = all_lines(r.value)
+        def undecoded(t):
+            # bytes lines decoded to text: the same line
+            return T.phi_form(T.subst(t, lambda y: y[1][1] if y[0] == "call" and y[1][0] == "attr" and y[1][2] == "decode" else None))
         for c in facts.collections_of(pcx, r.value):
             if len(c.gens) == 1 and not c.conds and all_lines(c.its[0]):
                 e = c.els[0]
-                good = c.elt == e or (c.elt[0] == "call" and c.elt[1][0] == "attr" and c.elt[1][1] == e
-                                      and c.elt[1][2] in ("strip", "rstrip") and not c.elt[3])
+                elt = undecoded(c.elt)
+                good = elt == e or (elt[0] == "call" and elt[1][0] == "attr" and elt[1][1] == e
+                                    and elt[1][2] in ("strip", "rstrip") and not elt[3])
         ok = ok and good
     rep.ob(rule_id, "DiscInfo.parse_file:every-line-kept", ok, site=pcx.site(p.node),
            msg="" if ok else "parse_file must return every line of the file (stripped), none dropped: the reader is positional, a "
